@@ -74,7 +74,8 @@ def o09_3(tier):
         vs = mk_vertices(ctx, [(0.0, 0.0), (1.0, 0.0)], ids=ids)
         for v in vs:
             ctx.set(v, "ownEdges", [other])
-        exc = ctx.raises(lambda: ctx.call(E, eid, vs[0], vs[1]), AssertionError)
+        kept = []       # natively an unreferenced SmallEdge is finalised at once and unregisters itself (A-gc)
+        exc = ctx.raises(lambda: kept.append(ctx.call(E, eid, vs[0], vs[1])), AssertionError)
         if exc is not None:
             ctx.ensure(ctx.eq(ids[0], ids[1]), "rejected only when both ends have the same id")
             return
@@ -82,6 +83,8 @@ def o09_3(tier):
         for v in vs:
             oe = ctx.list_of(ctx.get(v, "ownEdges"))
             ctx.ensure(len(oe) == 2 and ctx.eq(oe[0], other) and ctx.eq(oe[1], eid), "end vertex lists the new edge once, after its old entries")
+        from .common import KEEP
+        KEEP.extend(kept)
 
     def h_del(ctx):
         E = cls(ctx, "forsys.edge", "SmallEdge")
